@@ -246,6 +246,16 @@ def specials():
     b.add('cwd/leaf.yaml', [], modname='c19shared')
     out.append(b.case({'name': '$T/par/c1', 'loader': None, 'py_dir': None},
                       tags=['special:shared-module-name']))
+    # --- a DIRECTORY called leaf.yaml is not a pipeline file: the search moves on ------------
+    for shape in sh:
+        c = make_case('plain', shape, {'sub', 'blt'})
+        c['dirs'] = sorted(set(c['dirs']) | {'cwd/leaf.yaml', 'par/leaf.yaml'})
+        c['tags'].append('special:directory-named-like-the-pipeline')
+        out.append(c)
+        c = make_case('plain', shape, set())
+        c['dirs'] = sorted(set(c['dirs']) | {'cwd/leaf.yaml', 'blt/leaf.yaml'})
+        c['tags'].append('special:directory-named-like-the-pipeline')
+        out.append(c)
     # --- the same pipeline requested twice (cache hit, same answer) ------------------------
     b = Builder()
     b.add('par/c1.yaml', [{'name': 'leaf'}, {'name': 'leaf'}, {'name': 'leaf', 'resolve': False}])
@@ -321,10 +331,18 @@ def random_case(rng):
             calls.append(c)
         b.add(f'{d}/{n}.yaml', calls, mod=rng.random() < 0.7,
               modname='c19shared' if shared and rng.random() < 0.5 else None)
+    taken = {f['path'] for f in b.files}
+    for n in names:
+        for d in dirs:
+            if rng.random() < 0.06 and f'{d}/{n}.yaml' not in taken:
+                b.dirs.add(f'{d}/{n}.yaml')          # a directory with the pipeline's file name
     inv = {'name': ref(names[0]), 'loader': rng.choice([None, None, None, FILE_LOADER, 'c19_loader',
                                                        'c19_loader_np', 'c19_loader_nl']),
            'py_dir': rng.choice([None, None, None, '$T/' + rng.choice(DIR_POOL)])}
     return b.case(inv, tags=['random'])
+
+
+MAX_CASES = 6000      # one subprocess per case: keeps a widened search within minutes
 
 
 def generate(rng, n, tier):
@@ -336,6 +354,6 @@ def generate(rng, n, tier):
         return keep + [rest[i] for i in idx]
     out = list(g)
     if tier == 'thorough':
-        while len(out) < n:
+        while len(out) < min(n, MAX_CASES):
             out.append(random_case(rng))
     return out
